@@ -851,6 +851,50 @@ pub fn pinned_big_family() -> Vec<Workload> {
     v
 }
 
+/// Family "exact-fit": long-lived blocks on both sides of a free chunk F (and optionally a filler that leaves
+/// top small); each repetition carves a small header block off F (the remainder becomes dv) and then asks
+/// for EXACTLY that remainder (and 16 bytes less / more), frees both; also exact fits of the whole chunk F
+/// and of top.
+pub fn exact_fit_family() -> Vec<Workload> {
+    let m = |size| Op::Malloc { size, align: 8 };
+    let pad = |r: usize| ((r + 8 + 15) & !15).max(32);
+    let mut v = Vec::new();
+    for p in [Policy::TopDown, Policy::Below, Policy::Disjoint] {
+        for filler in [0usize, 60_000, 65_000] {
+            for x in [200usize, 5000, 200_000] {
+                // pins: A, X, B (, filler); X is freed again: a free chunk between two blocks that stay
+                let mut pins = vec![m(24), m(x), m(24)];
+                if filler > 0 {
+                    pins.push(m(filler));
+                }
+                pins.push(Op::Free { slot: 1 });
+                let f = pad(x);
+                for h in [24usize, 100] {
+                    if pad(h) + 32 > f {
+                        continue;
+                    }
+                    let rem = f - pad(h);
+                    for d in [0isize, -16, 16] {
+                        let req = (rem as isize - 8 + d) as usize;
+                        for order in [FreeOrder::Fifo, FreeOrder::Lifo] {
+                            v.push(Workload { warmup: vec![], pins: pins.clone(), ops: vec![m(h), m(req)], order, policy: p });
+                        }
+                    }
+                }
+                // the whole chunk, exactly / 16 less
+                for d in [0usize, 16] {
+                    v.push(Workload { warmup: vec![], pins: pins.clone(), ops: vec![m(f - 8 - d)], order: FreeOrder::Fifo, policy: p });
+                }
+            }
+        }
+        // top of a fresh 64 KiB segment behind one 24-byte block: 65456 - 32 bytes
+        for d in [0usize, 16, 32] {
+            v.push(Workload { warmup: vec![], pins: vec![m(24)], ops: vec![m(65456 - 32 - 8 - d)], order: FreeOrder::Fifo, policy: p });
+        }
+    }
+    v
+}
+
 /// compare an accelerated run with the brute-force run of the same workload
 fn cross_validate(wl: &Workload, brute: &LassoResult, fast: &LassoResult, r: &mut Report) {
     let n = brute.event_trace.len().min(fast.event_trace.len());
@@ -1123,6 +1167,7 @@ pub fn lasso(args: &Args) -> Report {
             let mut all: Vec<(bool, Workload)> = alloc_family(th).into_iter().map(|w| (true, w)).chain(seq_family(th).into_iter().map(|w| (false, w))).collect();
             all.extend(aligned_realloc_family().into_iter().map(|w| (false, w)));
             all.extend(pinned_big_family().into_iter().map(|w| (false, w)));
+            all.extend(exact_fit_family().into_iter().map(|w| (false, w)));
             for (p, warm) in &layouts {
                 for (ops, order) in samebin_family() {
                     all.push((false, Workload { warmup: warm.clone(), pins: vec![], ops, order, policy: *p }));
@@ -1168,7 +1213,7 @@ pub fn lasso(args: &Args) -> Report {
     r.merge(pre);
     let sa = seq_alpha(th);
     r.rule = format!(
-        "every workload of five families, each generated once. 'aligned-realloc' ({} workloads): malloc(s in {{6000,70000,1Mi}}, align 64/4096) [+ malloc(300)], realloc to {{1000,4096,s/2,2s}}, \
+        "every workload of six families, each generated once. 'exact-fit' ({} workloads): a free chunk F (from a 200 / 5000 / 200 000-byte block) between two long-lived 24-byte blocks, optionally a long-lived filler that leaves top small; each repetition mallocs h in {{24,100}} (carved off F, the remainder becomes dv), then EXACTLY the remainder and 16 bytes less/more, frees both (fifo/lifo); also the whole of F exactly / 16 less, and top exactly / 16 / 32 less; policies T/B/D. 'aligned-realloc' ({} workloads): malloc(s in {{6000,70000,1Mi}}, align 64/4096) [+ malloc(300)], realloc to {{1000,4096,s/2,2s}}, \
          free all, policies T/B/D. 'pinned-big' ({} workloads): no / a 24-byte / a 1000-byte block allocated once and kept for good, each repetition allocates and frees one or two blocks of \
          8/24/40 MiB, policies T/B/D. 'same-bin' ({n_samebin} workloads): from EVERY one of {n_layouts} distinct start layouts x the 96 workloads \
          'allocate two of three sizes X<Y<S of one tree bin (ladder {SAME_BIN_LADDER:?}) with 300-byte pins, free both in either order, request the third, free all fifo/lifo'; the start \
@@ -1181,6 +1226,7 @@ pub fn lasso(args: &Args) -> Report {
          after an earlier repetition. Repetitions in which only the release_checks countdown changes are skipped (three consecutive identical quiet repetitions observed first); the alloc family \
          is {} ALSO run without that shortcut (cap {} repetitions, > {} release_checks periods of {MAX_RELEASE_CHECK_RATE}) and the two runs' kernel-call traces compared \
          (traces_validated_against_impl). A run stops at once when the footprint exceeds the allowed bound (3 x peak live bytes rounded up to 64 KiB + 4 MiB). states = distinct state fingerprints, transitions = repetitions executed.",
+        exact_fit_family().len(),
         aligned_realloc_family().len(),
         pinned_big_family().len(),
         lpol.iter().map(|p| p.letter()).collect::<String>(),
